@@ -77,10 +77,10 @@ STR_VALUES = {"mmap_mode": ["r", "r+", "c", "w+"], "temp_folder": ["/a", "/b", "
 
 
 def ob_key(depth: int, s0: bool, s1: bool, s2: bool, v0: int, v1: int, v2: int,
-           ex: bool, xv: int, boom: bool) -> bool:
+           ex: bool, xv: int, boom: bool, s3: bool, v3: int) -> bool:
     """
-    pre: 0 <= depth <= 3
-    pre: 1 <= v0 <= 60 and 1 <= v1 <= 60 and 1 <= v2 <= 60 and 1 <= xv <= 60
+    pre: 0 <= depth <= 4
+    pre: 1 <= v0 <= 60 and 1 <= v1 <= 60 and 1 <= v2 <= 60 and 1 <= xv <= 60 and 1 <= v3 <= 60
     post: _
     """
     H.enter()
@@ -89,14 +89,16 @@ def ob_key(depth: int, s0: bool, s1: bool, s2: bool, v0: int, v1: int, v2: int,
     _reset()
     if not isinstance(jp._backend, threading.local):
         return H.verdict(False, "the configuration store is not a threading.local")
-    sets, vals = [s0, s1, s2], [v0, v1, v2]
+    sets, vals = [s0, s1, s2, s3], [v0, v1, v2, v3]
+    maxd = H.P("max_depth", 3)
+    H.assume(depth <= maxd)
 
     def conv(v):
         if key in STR_VALUES:
             return STR_VALUES[key][H.select(v % 2, 0, 1)]
         return v
 
-    d = H.select(depth, 0, 3)
+    d = H.select(depth, 0, maxd)
     levels = []
     expected = None
     for i in range(d):
@@ -106,7 +108,7 @@ def ob_key(depth: int, s0: bool, s1: bool, s2: bool, v0: int, v1: int, v2: int,
             expected = ("v", val)
         else:
             levels.append({"prefer": None} if i % 2 else {})    # a context that sets something else / nothing
-    for i in range(d, 3):
+    for i in range(d, 4):
         H.assume(not sets[i])
     xval = None
     if ex:
@@ -305,8 +307,9 @@ def validate():
 def obligations(tier, seed):
     obs = []
     for key in ("n_jobs", "verbose", "max_nbytes", "mmap_mode", "temp_folder"):
-        obs.append({"name": "key/%s" % key, "fn": "ob_key", "params": {"key": key}, "timeout": 300,
-                    "bounds": "depth 0..3, any subset of levels sets the key, symbolic values 1..60 (strings: 4 "
+        obs.append({"name": "key/%s" % key, "fn": "ob_key", "params": {"key": key, "max_depth": 3 if tier == "quick" else 4},
+                    "timeout": 300 if tier == "quick" else 1500,
+                    "bounds": "depth 0..3 (thorough: 4), any subset of levels sets the key, symbolic values 1..60 (strings: 4 "
                               "choices), explicit argument or not, exception exit or not"})
     for cb in range(5):
         obs.append({"name": "resolve/ctx_%s" % (BACKENDS[cb] or "unset"), "fn": "ob_resolve", "mode": "S",
